@@ -19,12 +19,12 @@ func init() {
 			"list(A), list(B), diff(A,B), diff(B,A), diff(A,A) are recorded from the real library; for every ordered workload pair and every (workload, address atom, direction) - atoms induced by the range boundaries of both reports and of all diff entries - the number of covering diff entries, their type, both connection values and the new/lost flags are compared with what (c1,c2, workload presence) determine; " +
 			"non-trivial = the diff has >= 2 non-empty categories or the two reports partition the address space differently; distinct = hash of both worlds",
 		Assumptions:       []string{"list(A) and list(B) are the reference (their own correctness is C01/C02's subject)", "the reserved peer name ingress-controller is never used for a real workload"},
-		NumCases:          func(tier string, _ int64) int { return tierN(tier, 700, 30000) },
+		NumCases:          func(tier string, _ int64) int { return tierN(tier, 1600, 40000) },
 		Run:               runC04,
 		MinNonTrivial:     150,
 		MinEffectiveShare: 0.4,
 		RequiredEvents: map[string]int64{"points_checked": 20000, "entries_added": 50, "entries_removed": 50, "entries_changed": 50, "entries_unchanged": 200,
-			"pairs_with_refined_ranges": 50, "entries_with_newlost_flag": 30, "merged_ip_entries": 50},
+			"pairs_with_refined_ranges": 50, "entries_with_newlost_flag": 30, "merged_ip_entries": 50, "edit_moveCIDR": 100, "points_removed_and_added_same_conn_same_workload": 50},
 	})
 }
 
@@ -185,6 +185,25 @@ func checkDiffExact(r *run.CaseResult, a, b *observe.ListResult, d *observe.Diff
 			}
 		}
 	}
+	for wname, es := range bySrcWL {
+		_ = wname
+		for _, x := range es {
+			for _, y := range es {
+				if x.Type == "removed" && y.Type == "added" && x.C1.Equal(y.C2) {
+					r.Ev("points_removed_and_added_same_conn_same_workload", 1)
+				}
+			}
+		}
+	}
+	for _, es := range byDstWL {
+		for _, x := range es {
+			for _, y := range es {
+				if x.Type == "removed" && y.Type == "added" && x.C1.Equal(y.C2) {
+					r.Ev("points_removed_and_added_same_conn_same_workload", 1)
+				}
+			}
+		}
+	}
 	for _, s := range names {
 		for _, t := range names {
 			if s == t {
@@ -291,7 +310,13 @@ func runC04(c *run.Ctx) {
 	wa, cfg := genDiffBase(g)
 	wb := wa
 	edits := []string{}
-	for n := g.Range(1, 3); n > 0; n-- {
+	if c.Idx%4 == 1 { // goal-directed: the same connection moves from one address block to a disjoint one
+		if nw, ok := world.MoveCIDR(g, wb); ok {
+			wb = nw
+			edits = append(edits, "moveCIDR")
+		}
+	}
+	for n := g.Range(1, 3); n > 0 && (len(edits) == 0 || g.P(0.5)); n-- {
 		nw, name := world.Mutate(g, wb, cfg)
 		edits = append(edits, name)
 		if nw == nil {
